@@ -4,6 +4,7 @@ import (
 	"bytes"
 	"encoding/json"
 	"fmt"
+	"math"
 	"strconv"
 
 	"github.com/jrhy/mast"
@@ -68,7 +69,14 @@ func (k *Key) Layer(branchFactor uint) uint8 {
 	case v1proto.Type_INT:
 		layer, err = defaultLayer(v.Int, branchFactor)
 	case v1proto.Type_REAL:
-		layer, err = defaultLayer(strconv.FormatFloat(v.Real, 'b', -1, 64), branchFactor)
+		if v.Real == math.Trunc(v.Real) && v.Real >= -9223372036854775808.0 && v.Real < 9223372036854775808.0 {
+			// An integral real is the same key as that integer (and -0.0
+			// the same key as 0.0): keys that compare equal must be placed
+			// on the same level, or one is not found where the other is.
+			layer, err = defaultLayer(int64(v.Real), branchFactor)
+		} else {
+			layer, err = defaultLayer(strconv.FormatFloat(v.Real, 'b', -1, 64), branchFactor)
+		}
 	case v1proto.Type_TEXT:
 		layer, err = defaultLayer(v.Text, branchFactor)
 	case v1proto.Type_BLOB:
